@@ -44,7 +44,11 @@ JudgeRead(s, e) ==
       \* index (explicitly, or by falling back): as coded it starts where the stream was left and returns a suffix
       moved == "moved" \in DOMAIN e /\ e.moved
       scanlike == e.mode = "scan" \/ (indexed /\ ~Indexable(f) /\ ~Ordered(e))
-      IsSuffixOf(full) == \E p \in 1 .. Len(full) : ids = SubSeq(full, p + 1, Len(full))       \* a proper suffix
+      \* a proper later part: what lies behind some point of the stream, less the messages whose channel record lies before that
+      \* point (the unindexed iterator skips messages of channels it has not seen) - a proper sub-sequence, in file order
+      IsSuffixOf(full) == /\ ids # full /\ \A i \in DOMAIN ids : \E j \in DOMAIN full : full[j] = ids[i]
+                          /\ \A i, k \in DOMAIN ids : i < k =>
+                                (CHOOSE j \in DOMAIN full : full[j] = ids[i]) < (CHOOSE j \in DOMAIN full : full[j] = ids[k])
   IN
   IF ~LegalWindow(e) THEN {}
   ELSE IF Ended(e) = "panic" THEN {"C10/Panic/Messages"}
